@@ -150,6 +150,10 @@ class Tmatrix(ScatteringTheory):
         med_wavelen = args[2]
         nang = args[-1]
         s11, s12, s21, s22 = ampld(*args)
+        if np.isnan([s11, s12, s21, s22]).any():
+            raise TmatrixFailure(message=(
+                "the particle's size or aspect ratio is too large for " +
+                "the T-matrix code to converge."))
         for s in [s11, s12, s21, s22]:
             s *= (-2j*np.pi/med_wavelen)
         scat_matr = np.array([[s11, s12], [s21, s22]]).transpose()
